@@ -208,11 +208,6 @@ def _chunk(arg):
             out["diag_lines"] += 1
         out["hashes"].append(chash(text))
         d = compare(real, model)
-        # the hypothesis of the C14 theorems (`StmtLinesOk`, Proofs/C14b.lean): CPython reports the syntax error of a
-        # statement on one of the lines it was handed
-        for src_, v_ in tables_of.get(id(real), {}).items():
-            if v_.startswith("syntax:") and v_[7:] and int(v_[7:]) > src_.count("\n") + 1:
-                d = d or f"oracle hypothesis StmtLinesOk fails: ast.parse reports line {v_[7:]} of a source with {src_.count(chr(10)) + 1} line(s): {src_[:80]!r}"
         if d is None:
             out["agree"] += 1
         else:
